@@ -46,6 +46,9 @@ def _worker(fn_name, init_name, tasks, out_path, deadline):
                     rec = {'i': idx, 'harness_error': traceback.format_exc()}
                 out.write(json.dumps(rec) + '\n')
                 out.flush()
+                if not os.environ.get('JV_KEEP_PARSER_CACHE'):
+                    from . import boot
+                    boot.prune_parser_cache()
     except BaseException:
         with open(out_path, 'a') as out:
             out.write(json.dumps({'fatal': traceback.format_exc()}) + '\n')
